@@ -42,7 +42,7 @@ func (d *captureDriver) SendIterationEndInfo(depth int, seldepth int, value Valu
 }
 func (d *captureDriver) SendAspirationResearchInfo(depth int, seldepth int, value Value, bound string, nodes uint64, nps uint64, t time.Duration, pv moveslice.MoveSlice) {
 }
-func (d *captureDriver) SendCurrentRootMove(currMove Move, moveNumber int)                          {}
+func (d *captureDriver) SendCurrentRootMove(currMove Move, moveNumber int) {}
 func (d *captureDriver) SendSearchUpdate(depth int, seldepth int, nodes uint64, nps uint64, t time.Duration, hashfull int) {
 }
 func (d *captureDriver) SendCurrentLine(moveList moveslice.MoveSlice) {}
@@ -142,8 +142,8 @@ func runDepthSearch(p *position.Position, depth int, timeout time.Duration) (*se
 // reference minimax (shares nothing with alphabeta.go): the engine's own generator,
 // evaluator and draw test; quiescence off.
 type refSearch struct {
-	mg   []*movegen.Movegen
-	eval *evaluator.Evaluator
+	mg    []*movegen.Movegen
+	eval  *evaluator.Evaluator
 	nodes int
 }
 
